@@ -90,6 +90,29 @@ theorem state_accept (ok : w.Ok (multisigScriptN m keys) flags)
       exact hse i (mem_signedList.mp hi).1 (mem_signedList.mp hi).2
     · intro k hk; exact hke k (List.mem_reverse.mp hk)
 
+/-- **a blob among the signature variables that verifies for no listed key ⇒ rejected**, whatever else is there -/
+theorem state_reject_of_bad (ok : w.Ok (multisigScriptN m keys) flags)
+    (hm1 : 1 ≤ m) (hmn : m ≤ keys.length) (hn : keys.length ≤ 20) (hs : SizesOk keys sg ph)
+    (hle : card keys.reverse.length sgn ≤ m)
+    (hbad : ∃ s ∈ stateSigs keys.reverse.length m sg ph sgn, ∀ k ∈ keys,
+      chk s k (scriptCodeFor ⟨multisigScriptN m keys, flags, w.sv, tx⟩ ⟨[], [], [], 0, 0⟩
+        (stateSigs keys.reverse.length m sg ph sgn)) w.sv = false) :
+    verifyScript chk (w.scriptSig (multisigScriptN m keys) (stateSolved keys.reverse.length m sg ph sgn))
+      (w.spk (multisigScriptN m keys)) (w.wit (multisigScriptN m keys) (stateSolved keys.reverse.length m sg ph sgn))
+      flags tx ≠ none := by
+  have hit := stateSolved_items m keys sg ph sgn hs
+  have hs1 := hs.1
+  clear hs
+  generalize hnK : keys.reverse.length = n at *
+  have hlen := stateSigs_length n m sg ph sgn hle
+  rw [verifyScript_wrap_eq chk w _ _ flags tx ok hit
+    (by simp only [stateSolved, List.length_cons, List.length_reverse, hlen]; omega)]
+  have hrev : (stateSolved n m sg ph sgn).reverse = stateSigs n m sg ph sgn ++ [[]] := by
+    simp [stateSolved]
+  rw [hrev]
+  apply w.verdict_ne_none flags (rest := [])
+  exact evalScript_multisigN_bad chk m keys _ flags tx w.sv hlen hm1 hmn hn hs1 hbad
+
 /-- **fewer than `m` ⇒ rejected**: a placeholder is there, and it verifies for no listed key -/
 theorem state_reject (ok : w.Ok (multisigScriptN m keys) flags)
     (hm1 : 1 ≤ m) (hmn : m ≤ keys.length) (hn : keys.length ≤ 20) (hs : SizesOk keys sg ph)
@@ -99,22 +122,16 @@ theorem state_reject (ok : w.Ok (multisigScriptN m keys) flags)
     verifyScript chk (w.scriptSig (multisigScriptN m keys) (stateSolved keys.reverse.length m sg ph sgn))
       (w.spk (multisigScriptN m keys)) (w.wit (multisigScriptN m keys) (stateSolved keys.reverse.length m sg ph sgn))
       flags tx ≠ none := by
-  have hit := stateSolved_items m keys sg ph sgn hs
-  have hs1 := hs.1
-  clear hs
-  generalize hnK : keys.reverse.length = n at *
-  have hlen := stateSigs_length n m sg ph sgn (by omega)
-  rw [verifyScript_wrap_eq chk w _ _ flags tx ok hit
-    (by simp only [stateSolved, List.length_cons, List.length_reverse, hlen]; omega)]
-  have hrev : (stateSolved n m sg ph sgn).reverse = stateSigs n m sg ph sgn ++ [[]] := by
-    simp [stateSolved]
-  rw [hrev]
-  apply w.verdict_ne_none flags (rest := [])
-  apply evalScript_multisigN_bad chk m keys _ flags tx w.sv hlen hm1 hmn hn hs1
+  apply state_reject_of_bad chk w m keys sg ph sgn flags tx ok hm1 hmn hn hs (by omega)
   refine ⟨ph, ?_, hph⟩
   unfold stateSigs
   apply List.mem_append_left
   rw [List.mem_replicate]
   exact ⟨by omega, rfl⟩
+
+theorem stateSolved_congr (n m : Nat) (sg : Nat → Bytes) (ph : Bytes) {a b : Nat → Bool}
+    (h : signedList n a = signedList n b) : stateSolved n m sg ph a = stateSolved n m sg ph b := by
+  unfold stateSolved stateSigs card
+  rw [h]
 
 end Pycoin.Sign
